@@ -474,6 +474,8 @@ def rule_fd_path(ctx, cfg, F, model, rule_name="FD-PATH", rule_text=None):
                 arrs |= {r.id for r in tr.roots_of_operand(t["args"][ai]) if r.kind == "agg"}
                 arr_local = _out_array_local(f, t["args"][ai])
                 if arr_local is None:
+                    arr_local = _out_array_via_call(f, t["args"][ai])
+                if arr_local is None:
                     R.violate("%s:%s:out-array-unresolved" % (f.path, what), "cannot resolve the out array of %s" % what,
                               f.path, f.loc(b), config=cfg)
                     continue
@@ -548,6 +550,34 @@ def _out_array_local(f, operand):
             l = op_local(rv["a"][0])
             continue
         return None
+    return None
+
+
+def _out_array_via_call(f, operand):
+    """`arr.as_mut_ptr()` / `arr.as_mut_slice().as_mut_ptr()`: follow pointer-producing calls to the array local"""
+    from vlib.flow import transparent
+    l = op_local(operand)
+    seen = set()
+    while l is not None and l not in seen:
+        seen.add(l)
+        if "; 2]" in f.local_ty(l) and not f.local_ty(l).startswith("&"):
+            return l
+        ds = [d for d in f.defs().get(l, []) if not f.is_cleanup(d[0])]
+        if len(ds) != 1:
+            return None
+        b, si, node = ds[0]
+        if si is None:
+            if transparent(node) is None or not node["args"]:
+                return None
+            l = op_local(node["args"][0])
+            continue
+        rv = node["rv"]
+        if rv["r"] in ("ref", "raw"):
+            l = rv["pl"]["l"]
+        elif rv["r"] in ("use", "cast"):
+            l = op_local(rv["a"][0])
+        else:
+            return None
     return None
 
 
